@@ -164,7 +164,12 @@ def run(chk, tier):
         return
     if len(rows) < 100:
         raise ToolError("only %d traces recorded" % len(rows))
-    rows = rows[:400 if thorough else 250]
+    # records under non-constant arity schedules first, then the rest
+    nc = [t for t in rows if len(set(t["ar"])) > 1]
+    rest = [t for t in rows if len(set(t["ar"])) <= 1]
+    limit = 400 if thorough else 250
+    rows = nc[:limit // 2] + rest[:limit - min(len(nc), limit // 2)]
+    chk.extra["traces_nonconstant_schedules"] = min(len(nc), limit // 2)
     clean = False
     for rep in range(3):
         common.write_ndjson(o("c16-traces-use.ndjson"), rows)
